@@ -33,7 +33,7 @@ MODEL_INV = {
 WITNESSES = {
     "C03": ["D3", "D8b", "D8b-overshoot", "KF-D8a", "KF-D8c", "KF-D9", "D5", "D12"],
     "C04": ["D3", "D8d", "KF-D8c"],
-    "C06": ["D1", "D8d", "D11", "D8b", "KF-D9"],
+    "C06": ["D1", "D8d", "D11", "D11b", "D14", "D8b", "KF-D9"],
     "C07": ["D3", "D12"],
     "C09": ["D5"],
     "C12": ["D4"],
